@@ -1,3 +1,1624 @@
-//! C14 — bounded checks (to be written)
-use crate::ctx::Ctx;
-pub fn run(_ctx: &mut Ctx) {}
+//! C14 — the optic transformation is well-typed, functorial and differentiates correctly.
+//!
+//! Oracles (all written from the property statement, plain loops over Vec):
+//!  * `oracle`: the optic image of a plain model `f` BY DEFINITION — one block of nodes F(w)●R(w) per
+//!    node of f, one disjoint copy of fwd(x) and rev(x) per operation x, glued along
+//!    F A / F B / residual M / R B / R A — read off with the interleaved boundary
+//!    (optic form) or with the boundary F A ● R B → F B ● R A (adapted form).  Compared up to `model::iso`.
+//!  * functoriality: model::compose / model::tensor / model::identity on the library's own images.
+//!  * derivative: an independent reverse-mode interpreter over ℤ/2⁶⁴ on the plain model, itself
+//!    cross-checked against forward-mode (tangent) propagation, compared with
+//!    `strict::eval::eval` of the adapted optic (and with a plain interpreter run on the adapted diagram).
+use crate::ctx::{guard, Ctx, Rng};
+use crate::model::*;
+use open_hypergraphs::array::vec::*;
+use open_hypergraphs::indexed_coproduct::IndexedCoproduct;
+use open_hypergraphs::lax;
+use open_hypergraphs::lax::optic::Optic as LaxOptic;
+use open_hypergraphs::operations::Operations;
+use open_hypergraphs::semifinite::SemifiniteFunction;
+use open_hypergraphs::strict::functor::optic::Optic as StrictOptic;
+use open_hypergraphs::strict::functor::traits::Functor as StrictFunctor;
+use serde_json::{json, Value};
+
+type Check = fn(&mut Ctx, &Value);
+const CHECKS: &[(&str, Check)] = &[
+    ("optic", chk_optic),
+    ("map_object", chk_map_object),
+    ("map_operations", chk_map_operations),
+    ("functor", chk_functor),
+    ("deriv", chk_deriv),
+    ("chain", chk_chain),
+];
+
+type ICS = IndexedCoproduct<VecKind, SF<u8>>;
+
+/// self-test aid: C14_ONLY=name[,name] restricts a run to the named checks (unset: all checks)
+fn skipped(name: &str) -> bool {
+    match std::env::var("C14_ONLY") {
+        Ok(v) if !v.is_empty() => !v.split(',').any(|n| n == name),
+        _ => false,
+    }
+}
+
+// ------------------------------------------------------------------------------------------------
+// polynomial circuit theory over Z/2^64 (single object 0)
+// ------------------------------------------------------------------------------------------------
+const ADD: u8 = 0;
+const MUL: u8 = 1;
+const NEG: u8 = 2;
+const COPY: u8 = 3;
+const DISCARD: u8 = 4;
+const CONST0: u8 = 8; // CONST0 + k is the constant CONSTS[k]
+const CONSTS: [u64; 8] = [0, 1, 2, 3, u64::MAX, 1 << 63, (1 << 32) + 1, 0x9E3779B97F4A7C15];
+const POLY_OPS: usize = 16;
+
+fn poly_type(op: u8) -> Option<(usize, usize)> {
+    match op {
+        ADD | MUL => Some((2, 1)),
+        NEG => Some((1, 1)),
+        COPY => Some((1, 2)),
+        DISCARD => Some((1, 0)),
+        c if c >= CONST0 && ((c - CONST0) as usize) < CONSTS.len() => Some((0, 1)),
+        _ => None,
+    }
+}
+
+fn poly_apply_op(op: u8, a: &[u64]) -> Option<Vec<u64>> {
+    let (n, _) = poly_type(op)?;
+    if a.len() != n {
+        return None;
+    }
+    Some(match op {
+        ADD => vec![a[0].wrapping_add(a[1])],
+        MUL => vec![a[0].wrapping_mul(a[1])],
+        NEG => vec![a[0].wrapping_neg()],
+        COPY => vec![a[0], a[0]],
+        DISCARD => vec![],
+        c => vec![CONSTS[(c - CONST0) as usize]],
+    })
+}
+
+/// the `apply` callback handed to strict::eval::eval
+fn poly_apply_lib(ops: SF<u8>, args: IndexedCoproduct<VecKind, SF<u64>>) -> IndexedCoproduct<VecKind, SF<u64>> {
+    let sizes = &args.sources.table.0;
+    let vals = &args.values.0 .0;
+    let mut p = 0usize;
+    let mut osz = vec![];
+    let mut ov = vec![];
+    for (i, op) in ops.0 .0.iter().enumerate() {
+        let k = sizes[i];
+        let out = poly_apply_op(*op, &vals[p..p + k]).expect("apply: operation applied to the wrong number of arguments");
+        p += k;
+        osz.push(out.len());
+        ov.extend(out);
+    }
+    IndexedCoproduct::from_semifinite(SemifiniteFunction(VecArray(osz)), SemifiniteFunction(VecArray(ov))).unwrap()
+}
+
+// ------------------------------------------------------------------------------------------------
+// optic specification: forward / reverse object images, residuals, generator images
+// ------------------------------------------------------------------------------------------------
+#[derive(Clone, Debug, PartialEq)]
+struct Spec {
+    /// standard reverse-derivative lenses of the polynomial circuit theory (tables below ignored)
+    poly: bool,
+    /// the optic of the library's own tests: forward = the library's `Identity` functor (strict entry),
+    /// reverse = dagger (x: A→B ↦ x: B→A), residuals empty
+    iddag: bool,
+    fobj: Vec<Vec<u8>>,
+    robj: Vec<Vec<u8>>,
+    res: Vec<Vec<u8>>,
+    fmode: Vec<u8>,
+    rmode: Vec<u8>,
+}
+
+const N_MODES: usize = 6;
+
+fn u8ss(v: &Value) -> Option<Vec<Vec<u8>>> {
+    v.as_array()?.iter().map(u8s).collect()
+}
+fn u8s(v: &Value) -> Option<Vec<u8>> {
+    v.as_array()?.iter().map(|x| x.as_u64().filter(|&y| y < 256).map(|y| y as u8)).collect()
+}
+fn u64s(v: &Value) -> Option<Vec<u64>> {
+    v.as_array()?.iter().map(|x| x.as_u64()).collect()
+}
+
+impl Spec {
+    fn poly() -> Spec {
+        let mut res = vec![vec![]; POLY_OPS];
+        res[MUL as usize] = vec![0, 0];
+        Spec { poly: true, iddag: false, fobj: vec![vec![0]], robj: vec![vec![0]], res, fmode: vec![0; POLY_OPS], rmode: vec![0; POLY_OPS] }
+    }
+    fn iddag() -> Spec {
+        let id: Vec<Vec<u8>> = (0..NL as u8).map(|l| vec![l]).collect();
+        Spec { poly: false, iddag: true, fobj: id.clone(), robj: id, res: vec![vec![]; NX], fmode: vec![0; NX], rmode: vec![0; NX] }
+    }
+    fn json(&self) -> Value {
+        if self.poly {
+            json!({"poly": true})
+        } else if self.iddag {
+            json!({"poly": false, "iddag": true})
+        } else {
+            json!({"poly": false, "fobj": self.fobj, "robj": self.robj, "res": self.res, "fmode": self.fmode, "rmode": self.rmode})
+        }
+    }
+    fn from_json(v: &Value) -> Option<Spec> {
+        if v.get("poly")?.as_bool()? {
+            return Some(Spec::poly());
+        }
+        if v.get("iddag").and_then(|b| b.as_bool()) == Some(true) {
+            return Some(Spec::iddag());
+        }
+        let s = Spec { poly: false, iddag: false, fobj: u8ss(v.get("fobj")?)?, robj: u8ss(v.get("robj")?)?, res: u8ss(v.get("res")?)?, fmode: u8s(v.get("fmode")?)?, rmode: u8s(v.get("rmode")?)? };
+        let ok = s.fobj.len() == s.robj.len()
+            && s.res.len() == s.fmode.len()
+            && s.res.len() == s.rmode.len()
+            && s.res.len() <= 6
+            && s.fmode.iter().chain(s.rmode.iter()).all(|&m| (m as usize) < N_MODES);
+        if ok {
+            Some(s)
+        } else {
+            None
+        }
+    }
+    /// the diagram only uses labels the spec knows (and, for poly, operations have their arity)
+    fn covers(&self, f: &M) -> bool {
+        if !f.valid() || f.w.iter().any(|&l| l as usize >= self.fobj.len()) || f.x.iter().any(|&l| l as usize >= self.res.len()) {
+            return false;
+        }
+        if self.poly {
+            for e in 0..f.x.len() {
+                if poly_type(f.x[e]) != Some((f.src[e].len(), f.tgt[e].len())) {
+                    return false;
+                }
+            }
+        }
+        true
+    }
+    fn f_ty(&self, a: &[u8]) -> Vec<u8> {
+        a.iter().flat_map(|&l| self.fobj[l as usize].clone()).collect()
+    }
+    fn r_ty(&self, a: &[u8]) -> Vec<u8> {
+        a.iter().flat_map(|&l| self.robj[l as usize].clone()).collect()
+    }
+    /// interleave(F A, R A): F(A0) R(A0) F(A1) R(A1) ...
+    fn inter_ty(&self, a: &[u8]) -> Vec<u8> {
+        a.iter().flat_map(|&l| [self.fobj[l as usize].clone(), self.robj[l as usize].clone()].concat()).collect()
+    }
+    /// forward generator image  F A → F B ● M_x
+    fn fwd_image(&self, x: u8, a: &[u8], b: &[u8]) -> M {
+        if self.poly {
+            return poly_fwd(x);
+        }
+        if self.iddag {
+            return singleton(x, a, b);
+        }
+        let t = [self.f_ty(b), self.res[x as usize].clone()].concat();
+        shape(self.fmode[x as usize], 100 + x, &self.f_ty(a), &t)
+    }
+    /// reverse generator image  M_x ● R B → R A
+    fn rev_image(&self, x: u8, a: &[u8], b: &[u8]) -> M {
+        if self.poly {
+            return poly_rev(x);
+        }
+        if self.iddag {
+            return singleton(x, b, a);
+        }
+        let s = [self.res[x as usize].clone(), self.r_ty(b)].concat();
+        shape(self.rmode[x as usize], 200 + x, &s, &self.r_ty(a))
+    }
+}
+
+/// a diagram of type s → t in the target theory; `mode` selects its shape
+fn shape(mode: u8, label: u8, s: &[u8], t: &[u8]) -> M {
+    let (ns, nt) = (s.len(), t.len());
+    match mode {
+        // one operation
+        0 => singleton(label, s, t),
+        // two operations in sequence (monogamous, internal nodes)
+        1 => M {
+            w: [s.to_vec(), t.to_vec(), t.to_vec()].concat(),
+            x: vec![label, label.wrapping_add(50)],
+            src: vec![(0..ns).collect(), (ns..ns + nt).collect()],
+            tgt: vec![(ns..ns + nt).collect(), (ns + nt..ns + 2 * nt).collect()],
+            s: (0..ns).collect(),
+            t: (ns + nt..ns + 2 * nt).collect(),
+        },
+        // no operation at all: dangling inputs and outputs (not monogamous unless both empty)
+        2 => M { w: [s.to_vec(), t.to_vec()].concat(), x: vec![], src: vec![], tgt: vec![], s: (0..ns).collect(), t: (ns..ns + nt).collect() },
+        // one operation, nodes numbered backwards (targets first), plus a zero-arity operation listed first
+        3 => M {
+            w: [t.iter().rev().cloned().collect::<Vec<_>>(), s.iter().rev().cloned().collect::<Vec<_>>()].concat(),
+            x: vec![label.wrapping_add(50), label],
+            src: vec![vec![], (0..ns).map(|i| nt + ns - 1 - i).collect()],
+            tgt: vec![vec![], (0..nt).map(|i| nt - 1 - i).collect()],
+            s: (0..ns).map(|i| nt + ns - 1 - i).collect(),
+            t: (0..nt).map(|i| nt - 1 - i).collect(),
+        },
+        // identity wires wherever s[i] == t[i], one operation for the rest (monogamous)
+        4 => {
+            let mut w = vec![];
+            let (mut sn, mut tn, mut es, mut et) = (vec![], vec![], vec![], vec![]);
+            for i in 0..ns.max(nt) {
+                if i < ns && i < nt && s[i] == t[i] {
+                    w.push(s[i]);
+                    sn.push(w.len() - 1);
+                    tn.push(w.len() - 1);
+                } else {
+                    if i < ns {
+                        w.push(s[i]);
+                        sn.push(w.len() - 1);
+                        es.push(w.len() - 1);
+                    }
+                    if i < nt {
+                        w.push(t[i]);
+                        tn.push(w.len() - 1);
+                        et.push(w.len() - 1);
+                    }
+                }
+            }
+            M { w, x: vec![label], src: vec![es], tgt: vec![et], s: sn, t: tn }
+        }
+        // one operation plus a second consumer of all inputs (not monogamous when s is non-empty)
+        _ => M {
+            w: [s.to_vec(), t.to_vec()].concat(),
+            x: vec![label, label.wrapping_add(50)],
+            src: vec![(0..ns).collect(), (0..ns).collect()],
+            tgt: vec![(ns..ns + nt).collect(), vec![]],
+            s: (0..ns).collect(),
+            t: (ns..ns + nt).collect(),
+        },
+    }
+}
+
+/// forward lens part: every operation is itself, except mul which also remembers its arguments
+fn poly_fwd(x: u8) -> M {
+    if x == MUL {
+        // x1 x2 -> (x1*x2, x1, x2)
+        M { w: vec![0; 7], x: vec![COPY, COPY, MUL], src: vec![vec![0], vec![1], vec![2, 4]], tgt: vec![vec![2, 3], vec![4, 5], vec![6]], s: vec![0, 1], t: vec![6, 3, 5] }
+    } else {
+        let (a, b) = poly_type(x).unwrap_or((0, 0));
+        singleton(x, &vec![0; a], &vec![0; b])
+    }
+}
+
+/// reverse lens part  M ● dY → dX
+fn poly_rev(x: u8) -> M {
+    match x {
+        // dy -> (dy, dy)
+        ADD => singleton(COPY, &[0], &[0, 0]),
+        // (m1, m2, dy) -> (m2*dy, m1*dy)
+        MUL => M { w: vec![0; 7], x: vec![COPY, MUL, MUL], src: vec![vec![2], vec![1, 3], vec![0, 4]], tgt: vec![vec![3, 4], vec![5], vec![6]], s: vec![0, 1, 2], t: vec![5, 6] },
+        NEG => singleton(NEG, &[0], &[0]),
+        // (dy1, dy2) -> dy1 + dy2
+        COPY => singleton(ADD, &[0, 0], &[0]),
+        // () -> 0
+        DISCARD => singleton(CONST0, &[], &[0]),
+        // dy -> ()
+        _ => singleton(DISCARD, &[0], &[]),
+    }
+}
+
+// ---- strict entry: forward / reverse functors and residual closure -------------------------------
+struct SpecFun {
+    spec: Spec,
+    rev: bool,
+}
+
+fn ics(lists: &[Vec<u8>]) -> ICS {
+    let sizes: Vec<usize> = lists.iter().map(|l| l.len()).collect();
+    let vals: Vec<u8> = lists.iter().flatten().cloned().collect();
+    IndexedCoproduct::from_semifinite(SemifiniteFunction(VecArray(sizes)), SemifiniteFunction(VecArray(vals))).unwrap()
+}
+
+fn split_u8(c: &ICS) -> Vec<Vec<u8>> {
+    let mut out = vec![];
+    let mut p = 0;
+    for &k in c.sources.table.0.iter() {
+        out.push(c.values.0 .0[p..p + k].to_vec());
+        p += k;
+    }
+    out
+}
+
+impl StrictFunctor<VecKind, u8, u8, u8, u8> for SpecFun {
+    fn map_object(&self, a: &SF<u8>) -> ICS {
+        let tab = if self.rev { &self.spec.robj } else { &self.spec.fobj };
+        ics(&a.0 .0.iter().map(|&l| tab[l as usize].clone()).collect::<Vec<_>>())
+    }
+    fn map_operations(&self, ops: Operations<VecKind, u8, u8>) -> SOH {
+        let (a, b) = (split_u8(&ops.a), split_u8(&ops.b));
+        let mut acc = M::empty();
+        for (i, &x) in ops.x.0 .0.iter().enumerate() {
+            let g = if self.rev { self.spec.rev_image(x, &a[i], &b[i]) } else { self.spec.fwd_image(x, &a[i], &b[i]) };
+            acc = tensor(&acc, &g);
+        }
+        acc.to_strict()
+    }
+    fn map_arrow(&self, _f: &SOH) -> SOH {
+        panic!("the forward/reverse parts are never applied to arrows")
+    }
+}
+
+type SOptic = StrictOptic<SpecFun, SpecFun, VecKind, u8, u8, u8, u8>;
+type LibIdentity = open_hypergraphs::strict::functor::identity::Identity;
+
+fn strict_optic(spec: &Spec) -> SOptic {
+    let s = spec.clone();
+    StrictOptic::new(
+        SpecFun { spec: spec.clone(), rev: false },
+        SpecFun { spec: spec.clone(), rev: true },
+        Box::new(move |ops: &Operations<VecKind, u8, u8>| ics(&ops.x.0 .0.iter().map(|&x| s.res[x as usize].clone()).collect::<Vec<_>>())),
+    )
+}
+
+// ---- lax entry -----------------------------------------------------------------------------------
+impl LaxOptic<u8, u8, u8, u8> for Spec {
+    fn fwd_object(&self, o: &u8) -> Vec<u8> {
+        self.fobj[*o as usize].clone()
+    }
+    fn fwd_operation(&self, a: &u8, source: &[u8], target: &[u8]) -> LOH {
+        self.fwd_image(*a, source, target).to_lax()
+    }
+    fn rev_object(&self, o: &u8) -> Vec<u8> {
+        self.robj[*o as usize].clone()
+    }
+    fn rev_operation(&self, a: &u8, source: &[u8], target: &[u8]) -> LOH {
+        self.rev_image(*a, source, target).to_lax()
+    }
+    fn residual(&self, a: &u8) -> Vec<u8> {
+        self.res[*a as usize].clone()
+    }
+}
+
+// ------------------------------------------------------------------------------------------------
+// definitions on the plain model
+// ------------------------------------------------------------------------------------------------
+/// every node is produced exactly once (input or operation output) and consumed exactly once
+fn monogamous(m: &M) -> bool {
+    let n = m.w.len();
+    let mut ins = vec![0usize; n];
+    let mut outs = vec![0usize; n];
+    for &v in &m.s {
+        ins[v] += 1;
+    }
+    for &v in &m.t {
+        outs[v] += 1;
+    }
+    for e in 0..m.x.len() {
+        for &v in &m.tgt[e] {
+            ins[v] += 1;
+        }
+        for &v in &m.src[e] {
+            outs[v] += 1;
+        }
+    }
+    (0..n).all(|v| ins[v] == 1 && outs[v] == 1)
+}
+
+/// an order of the operations in which every operation comes after the producers of its inputs
+/// (None when there is a directed cycle)
+fn topo(m: &M) -> Option<Vec<usize>> {
+    let k = m.x.len();
+    let mut done = vec![false; k];
+    let mut order = vec![];
+    loop {
+        let mut progress = false;
+        for e in 0..k {
+            if done[e] {
+                continue;
+            }
+            // every source node must not be the output of an operation that is not done yet
+            let blocked = m.src[e].iter().any(|v| (0..k).any(|p| !done[p] && m.tgt[p].contains(v)));
+            if !blocked {
+                done[e] = true;
+                order.push(e);
+                progress = true;
+            }
+        }
+        if !progress {
+            break;
+        }
+    }
+    if order.len() == k {
+        Some(order)
+    } else {
+        None
+    }
+}
+
+/// plain interpreter: values of all nodes and of the outputs
+fn run_circuit(m: &M, x: &[u64]) -> Option<(Vec<u64>, Vec<u64>)> {
+    if x.len() != m.s.len() {
+        return None;
+    }
+    let order = topo(m)?;
+    let mut val: Vec<Option<u64>> = vec![None; m.w.len()];
+    for (i, &v) in m.s.iter().enumerate() {
+        val[v] = Some(x[i]);
+    }
+    for e in order {
+        let args: Option<Vec<u64>> = m.src[e].iter().map(|&v| val[v]).collect();
+        let out = poly_apply_op(m.x[e], &args?)?;
+        if out.len() != m.tgt[e].len() {
+            return None;
+        }
+        for (j, &v) in m.tgt[e].iter().enumerate() {
+            val[v] = Some(out[j]);
+        }
+    }
+    let outs: Option<Vec<u64>> = m.t.iter().map(|&v| val[v]).collect();
+    let all: Vec<u64> = val.iter().map(|v| v.unwrap_or(0)).collect();
+    Some((all, outs?))
+}
+
+/// reverse-mode: (f(x), J_f(x)^T dy)
+fn reverse_mode(m: &M, x: &[u64], dy: &[u64]) -> Option<(Vec<u64>, Vec<u64>)> {
+    if dy.len() != m.t.len() {
+        return None;
+    }
+    let (val, y) = run_circuit(m, x)?;
+    let order = topo(m)?;
+    let mut adj = vec![0u64; m.w.len()];
+    for (j, &v) in m.t.iter().enumerate() {
+        adj[v] = adj[v].wrapping_add(dy[j]);
+    }
+    for &e in order.iter().rev() {
+        let (s, t) = (&m.src[e], &m.tgt[e]);
+        match m.x[e] {
+            ADD => {
+                adj[s[0]] = adj[s[0]].wrapping_add(adj[t[0]]);
+                adj[s[1]] = adj[s[1]].wrapping_add(adj[t[0]]);
+            }
+            MUL => {
+                let (a, b, d) = (val[s[0]], val[s[1]], adj[t[0]]);
+                adj[s[0]] = adj[s[0]].wrapping_add(b.wrapping_mul(d));
+                adj[s[1]] = adj[s[1]].wrapping_add(a.wrapping_mul(d));
+            }
+            NEG => adj[s[0]] = adj[s[0]].wrapping_add(adj[t[0]].wrapping_neg()),
+            COPY => adj[s[0]] = adj[s[0]].wrapping_add(adj[t[0]]).wrapping_add(adj[t[1]]),
+            _ => {}
+        }
+    }
+    Some((y, m.s.iter().map(|&v| adj[v]).collect()))
+}
+
+/// forward-mode cross-check of the oracle: (J e_i) · dy for every input i
+fn forward_mode(m: &M, x: &[u64], dy: &[u64]) -> Option<Vec<u64>> {
+    let (val, _) = run_circuit(m, x)?;
+    let order = topo(m)?;
+    let mut out = vec![];
+    for i in 0..m.s.len() {
+        let mut tan = vec![0u64; m.w.len()];
+        tan[m.s[i]] = 1;
+        for &e in &order {
+            let (s, t) = (&m.src[e], &m.tgt[e]);
+            match m.x[e] {
+                ADD => tan[t[0]] = tan[s[0]].wrapping_add(tan[s[1]]),
+                MUL => tan[t[0]] = tan[s[0]].wrapping_mul(val[s[1]]).wrapping_add(val[s[0]].wrapping_mul(tan[s[1]])),
+                NEG => tan[t[0]] = tan[s[0]].wrapping_neg(),
+                COPY => {
+                    tan[t[0]] = tan[s[0]];
+                    tan[t[1]] = tan[s[0]];
+                }
+                DISCARD => {}
+                _ => tan[t[0]] = 0,
+            }
+        }
+        let mut acc = 0u64;
+        for (j, &v) in m.t.iter().enumerate() {
+            acc = acc.wrapping_add(tan[v].wrapping_mul(dy[j]));
+        }
+        out.push(acc);
+    }
+    Some(out)
+}
+
+struct Expected {
+    optic: M,
+    adapted: M,
+    /// all generator images used are monogamous and acyclic
+    gens_mono: bool,
+}
+
+/// the optic image of f by definition (see module doc)
+fn oracle(spec: &Spec, f: &M) -> Expected {
+    let mut g = M::empty();
+    let mut fpos: Vec<Vec<usize>> = vec![];
+    let mut rpos: Vec<Vec<usize>> = vec![];
+    for &l in &f.w {
+        let mut fp = vec![];
+        for &o in &spec.fobj[l as usize] {
+            g.w.push(o);
+            fp.push(g.w.len() - 1);
+        }
+        let mut rp = vec![];
+        for &o in &spec.robj[l as usize] {
+            g.w.push(o);
+            rp.push(g.w.len() - 1);
+        }
+        fpos.push(fp);
+        rpos.push(rp);
+    }
+    let blocks = |pos: &Vec<Vec<usize>>, l: &Vec<usize>| -> Vec<usize> { l.iter().flat_map(|&v| pos[v].clone()).collect() };
+    let mut pairs: Vec<(usize, usize)> = vec![];
+    let mut gens_mono = true;
+    for e in 0..f.x.len() {
+        let a: Vec<u8> = f.src[e].iter().map(|&v| f.w[v]).collect();
+        let b: Vec<u8> = f.tgt[e].iter().map(|&v| f.w[v]).collect();
+        let fw = spec.fwd_image(f.x[e], &a, &b);
+        let rv = spec.rev_image(f.x[e], &a, &b);
+        gens_mono = gens_mono && monogamous(&fw) && monogamous(&rv) && topo(&fw).is_some() && topo(&rv).is_some();
+        let o1 = g.w.len();
+        g = tensor(&g, &fw);
+        let o2 = g.w.len();
+        g = tensor(&g, &rv);
+        let (fa, fb, ra, rb) = (blocks(&fpos, &f.src[e]), blocks(&fpos, &f.tgt[e]), blocks(&rpos, &f.src[e]), blocks(&rpos, &f.tgt[e]));
+        let nm = spec.res[f.x[e] as usize].len();
+        assert_eq!(fw.s.len(), fa.len());
+        assert_eq!(fw.t.len(), fb.len() + nm);
+        assert_eq!(rv.s.len(), nm + rb.len());
+        assert_eq!(rv.t.len(), ra.len());
+        for k in 0..fa.len() {
+            pairs.push((o1 + fw.s[k], fa[k])); // forward part reads F A
+        }
+        for k in 0..fb.len() {
+            pairs.push((o1 + fw.t[k], fb[k])); // ... and writes F B
+        }
+        for k in 0..nm {
+            pairs.push((o1 + fw.t[fb.len() + k], o2 + rv.s[k])); // residual: forward → matching reverse
+        }
+        for k in 0..rb.len() {
+            pairs.push((o2 + rv.s[nm + k], rb[k])); // reverse part reads R B
+        }
+        for k in 0..ra.len() {
+            pairs.push((o2 + rv.t[k], ra[k])); // ... and writes R A
+        }
+    }
+    let inter = |l: &Vec<usize>| -> Vec<usize> { l.iter().flat_map(|&v| [fpos[v].clone(), rpos[v].clone()].concat()).collect() };
+    let mut o = g.clone();
+    o.s = inter(&f.s);
+    o.t = inter(&f.t);
+    let mut ad = g;
+    ad.s = [blocks(&fpos, &f.s), blocks(&rpos, &f.t)].concat();
+    ad.t = [blocks(&fpos, &f.t), blocks(&rpos, &f.s)].concat();
+    Expected { optic: quotient(&o, &pairs).expect("oracle: labels agree by construction").0, adapted: quotient(&ad, &pairs).expect("oracle").0, gens_mono }
+}
+
+// ------------------------------------------------------------------------------------------------
+// calling the library
+// ------------------------------------------------------------------------------------------------
+fn lax_to_model(r: &LOH) -> Result<M, String> {
+    let (m, q) = M::from_lax(r);
+    if !q.is_empty() {
+        return Err(format!("result has {} pending identifications", q.len()));
+    }
+    if !m.valid() {
+        return Err("result refers to nodes out of range".into());
+    }
+    Ok(m)
+}
+
+fn with_pending(f: &M, pending: &[(usize, usize)]) -> LOH {
+    let mut lf = f.to_lax();
+    for &(a, b) in pending {
+        lf.hypergraph.quotient.0.push(lax::NodeId(a));
+        lf.hypergraph.quotient.1.push(lax::NodeId(b));
+    }
+    lf
+}
+
+/// (optic image, adapted image) through the chosen entry point; Err = (clause, message)
+fn lib_optic(spec: &Spec, f: &M, entry: &str, pending: &[(usize, usize)], fq: &M) -> Result<(M, Result<M, (String, String)>), (String, String)> {
+    let e = |c: &str, m: String| (c.to_string(), m);
+    if entry == "lax" {
+        let lf = with_pending(f, pending);
+        let c = guard(|| LaxOptic::map_arrow(spec, lf.clone())).map_err(|p| e("C14.no-panic", format!("map_arrow panicked: {}", p)))?;
+        let c = lax_to_model(&c).map_err(|w| e("C14.wf", w))?;
+        let a = guard(|| LaxOptic::map_adapted(spec, lf.clone()))
+            .map_err(|p| e("C14.adapt-no-panic", format!("map_adapted panicked: {}", p)))
+            .and_then(|a| lax_to_model(&a).map_err(|w| e("C14.adapt-wf", w)));
+        Ok((c, a))
+    } else if spec.iddag {
+        let s = spec.clone();
+        let o: StrictOptic<LibIdentity, SpecFun, VecKind, u8, u8, u8, u8> = StrictOptic::new(
+            open_hypergraphs::strict::functor::identity::Identity,
+            SpecFun { spec: spec.clone(), rev: true },
+            Box::new(move |ops: &Operations<VecKind, u8, u8>| ics(&ops.x.0 .0.iter().map(|&x| s.res[x as usize].clone()).collect::<Vec<_>>())),
+        );
+        strict_entry(&o, fq)
+    } else {
+        strict_entry(&strict_optic(spec), fq)
+    }
+}
+
+fn strict_entry<F: StrictFunctor<VecKind, u8, u8, u8, u8>>(o: &StrictOptic<F, SpecFun, VecKind, u8, u8, u8, u8>, fq: &M) -> Result<(M, Result<M, (String, String)>), (String, String)> {
+    let e = |c: &str, m: String| (c.to_string(), m);
+    {
+        let sf = fq.to_strict();
+        let c = guard(|| o.map_arrow(&sf)).map_err(|p| e("C14.no-panic", format!("map_arrow panicked: {}", p)))?;
+        let cm = strict_wf(&c).map_err(|w| e("C14.wf", w))?;
+        let (a, b) = (SemifiniteFunction(VecArray(fq.source_type())), SemifiniteFunction(VecArray(fq.target_type())));
+        let ad = guard(|| o.adapt(&c, &a, &b))
+            .map_err(|p| e("C14.adapt-no-panic", format!("adapt panicked: {}", p)))
+            .and_then(|r| strict_wf(&r).map_err(|w| e("C14.adapt-wf", w)));
+        Ok((cm, ad))
+    }
+}
+
+fn pairs_from_json(v: &Value) -> Option<Vec<(usize, usize)>> {
+    match v {
+        Value::Null => Some(vec![]),
+        _ => v.as_array()?.iter().map(|p| Some((p.get(0)?.as_u64()? as usize, p.get(1)?.as_u64()? as usize))).collect(),
+    }
+}
+
+// ------------------------------------------------------------------------------------------------
+// checks
+// ------------------------------------------------------------------------------------------------
+/// input: {"spec", "f": model, "entry": "strict"|"lax", "pending": [[a,b]..] (lax only, same-label pairs)}
+fn chk_optic(ctx: &mut Ctx, input: &Value) {
+    const N: &str = "optic";
+    if skipped(N) {
+        return;
+    }
+    let (spec, f) = match (Spec::from_json(&input["spec"]), M::from_json(&input["f"])) {
+        (Some(s), Some(f)) if s.covers(&f) => (s, f),
+        _ => return,
+    };
+    let entry = input["entry"].as_str().unwrap_or("strict");
+    let pending = match pairs_from_json(&input["pending"]) {
+        Some(p) if entry == "lax" || p.is_empty() => p,
+        _ => return,
+    };
+    if pending.iter().any(|&(a, b)| a >= f.w.len() || b >= f.w.len() || f.w[a] != f.w[b]) {
+        return;
+    }
+    // the diagram meant by a lax term with pending identifications is its quotient
+    let fq = match quotient(&f, &pending) {
+        Some((q, _)) => q,
+        None => return,
+    };
+    ctx.case(N, input, !fq.x.is_empty() || (fq.nontrivial() && fq.s != fq.t));
+    let exp = oracle(&spec, &fq);
+    let (a_ty, b_ty) = (fq.source_type(), fq.target_type());
+    let (c, ad) = match lib_optic(&spec, &f, entry, &pending, &fq) {
+        Ok(r) => r,
+        Err((clause, msg)) => return ctx.fail(N, &clause, input, json!(msg), exp.optic.json()),
+    };
+    // typing: interleave(F A, R A) → interleave(F B, R B)
+    ctx.expect(c.source_type() == spec.inter_ty(&a_ty), N, "C14.type-source", input, json!(c.source_type()), json!(spec.inter_ty(&a_ty)));
+    ctx.expect(c.target_type() == spec.inter_ty(&b_ty), N, "C14.type-target", input, json!(c.target_type()), json!(spec.inter_ty(&b_ty)));
+    // the image is the definition's gluing (residual routing, wire bending)
+    if !is_iso(&c, &exp.optic) {
+        ctx.fail(N, "C14.optic-iso", input, c.json(), exp.optic.json());
+    }
+    let ad = match ad {
+        Ok(a) => a,
+        Err((clause, msg)) => return ctx.fail(N, &clause, input, json!(msg), exp.adapted.json()),
+    };
+    let s_ty = [spec.f_ty(&a_ty), spec.r_ty(&b_ty)].concat();
+    let t_ty = [spec.f_ty(&b_ty), spec.r_ty(&a_ty)].concat();
+    ctx.expect(ad.source_type() == s_ty, N, "C14.adapt-type-source", input, json!(ad.source_type()), json!(s_ty));
+    ctx.expect(ad.target_type() == t_ty, N, "C14.adapt-type-target", input, json!(ad.target_type()), json!(t_ty));
+    if !is_iso(&ad, &exp.adapted) {
+        ctx.fail(N, "C14.adapt-iso", input, ad.json(), exp.adapted.json());
+    }
+    // "monogamous" is read as the library documents it (monogamous acyclic): a cyclic monogamous f whose
+    // generator images contain identity wires has closed loops, i.e. isolated nodes, in ANY conforming image
+    // (the definition's gluing included), so the clause is only claimed for acyclic f / generator images.
+    if monogamous(&fq) && exp.gens_mono && topo(&fq).is_none() && !monogamous(&ad) {
+        // the statement's clause "the adapted form is monogamous whenever f and the generator images are" read
+        // literally also covers cyclic monogamous f; there it fails for every conforming image (the gluing by
+        // definition included): recorded as a known finding, see known_findings.txt
+        ctx.fail(N, "C14.adapt-monogamous-cyclic-f", input, ad.json(), json!("monogamous (f and all generator images are; f is cyclic)"));
+    }
+    if monogamous(&fq) && topo(&fq).is_some() && exp.gens_mono {
+        if !monogamous(&ad) {
+            ctx.fail(N, "C14.adapt-monogamous", input, ad.json(), json!("monogamous (f and all generator images are)"));
+        }
+        let lib_says = guard(|| ad.to_strict().is_monogamous());
+        if lib_says != Ok(true) {
+            ctx.fail(N, "C14.adapt-monogamous-lib", input, json!(format!("{:?}", lib_says)), json!(true));
+        }
+    }
+}
+
+/// input: {"spec", "a": [labels]}  — the optic's action on objects is a ↦ F(a) ● R(a), one segment per object
+fn chk_map_object(ctx: &mut Ctx, input: &Value) {
+    const N: &str = "map_object";
+    if skipped(N) {
+        return;
+    }
+    let (spec, a) = match (Spec::from_json(&input["spec"]), u8s(&input["a"])) {
+        (Some(s), Some(a)) if a.iter().all(|&l| (l as usize) < s.fobj.len()) => (s, a),
+        _ => return,
+    };
+    ctx.case(N, input, !a.is_empty());
+    let o = strict_optic(&spec);
+    let expected: Vec<Vec<u8>> = a.iter().map(|&l| [spec.fobj[l as usize].clone(), spec.robj[l as usize].clone()].concat()).collect();
+    match guard(|| o.map_object(&SemifiniteFunction(VecArray(a.clone())))) {
+        Err(p) => ctx.fail(N, "C14.no-panic", input, json!(p), json!(expected)),
+        Ok(r) => {
+            let sum: usize = r.sources.table.0.iter().sum();
+            if r.sources.target != sum + 1 || sum != r.values.0 .0.len() {
+                return ctx.fail(N, "C14.map-object-wf", input, json!(format!("{:?}", r)), json!(expected));
+            }
+            let got = split_u8(&r);
+            ctx.expect(got == expected, N, "C14.map-object", input, json!(got), json!(expected));
+        }
+    }
+}
+
+/// input: {"spec", "ops": [[x, [A..], [B..]], ..]} — Optic::map_operations on a tensoring of operations
+fn chk_map_operations(ctx: &mut Ctx, input: &Value) {
+    const N: &str = "map_operations";
+    if skipped(N) {
+        return;
+    }
+    let spec = match Spec::from_json(&input["spec"]) {
+        Some(s) => s,
+        None => return,
+    };
+    let mut ops: Vec<(u8, Vec<u8>, Vec<u8>)> = vec![];
+    for o in input["ops"].as_array().cloned().unwrap_or_default() {
+        match (o.get(0).and_then(|v| v.as_u64()), o.get(1).and_then(u8s), o.get(2).and_then(u8s)) {
+            (Some(x), Some(a), Some(b)) if x < 256 => ops.push((x as u8, a, b)),
+            _ => return,
+        }
+    }
+    let mut f = M::empty();
+    for (x, a, b) in &ops {
+        f = tensor(&f, &singleton(*x, a, b));
+    }
+    if !spec.covers(&f) {
+        return;
+    }
+    ctx.case(N, input, !ops.is_empty());
+    let exp = oracle(&spec, &f);
+    let lib_ops = Operations::new(
+        SemifiniteFunction(VecArray(ops.iter().map(|o| o.0).collect::<Vec<u8>>())),
+        ics(&ops.iter().map(|o| o.1.clone()).collect::<Vec<_>>()),
+        ics(&ops.iter().map(|o| o.2.clone()).collect::<Vec<_>>()),
+    )
+    .unwrap();
+    let o = strict_optic(&spec);
+    match guard(|| o.map_operations(lib_ops)) {
+        Err(p) => ctx.fail(N, "C14.no-panic", input, json!(p), exp.optic.json()),
+        Ok(r) => match strict_wf(&r) {
+            Err(w) => ctx.fail(N, "C14.wf", input, json!(w), exp.optic.json()),
+            Ok(m) => {
+                ctx.expect(m.source_type() == spec.inter_ty(&f.source_type()), N, "C14.type-source", input, json!(m.source_type()), json!(spec.inter_ty(&f.source_type())));
+                ctx.expect(m.target_type() == spec.inter_ty(&f.target_type()), N, "C14.type-target", input, json!(m.target_type()), json!(spec.inter_ty(&f.target_type())));
+                if !is_iso(&m, &exp.optic) {
+                    ctx.fail(N, "C14.operations-iso", input, m.json(), exp.optic.json());
+                }
+            }
+        },
+    }
+}
+
+/// input: {"spec", "op": "compose"|"tensor"|"identity", "f", "g", "entry"}
+fn chk_functor(ctx: &mut Ctx, input: &Value) {
+    const N: &str = "functor";
+    if skipped(N) {
+        return;
+    }
+    let spec = match Spec::from_json(&input["spec"]) {
+        Some(s) => s,
+        None => return,
+    };
+    let entry = input["entry"].as_str().unwrap_or("strict");
+    let op = input["op"].as_str().unwrap_or("");
+    let f = match M::from_json(&input["f"]) {
+        Some(f) if spec.covers(&f) => f,
+        _ => return,
+    };
+    let image = |m: &M| -> Result<M, (String, String)> { lib_optic(&spec, m, entry, &[], m).map(|r| r.0) };
+    if op == "identity" {
+        // only the type of f matters
+        let a = f.source_type();
+        ctx.case(N, input, !a.is_empty());
+        let expected = identity(&spec.inter_ty(&a));
+        match image(&identity(&a)) {
+            Err((c, m)) => ctx.fail(N, &c, input, json!(m), expected.json()),
+            Ok(r) => {
+                if !is_iso(&r, &expected) {
+                    ctx.fail(N, "C14.preserves-identity", input, r.json(), expected.json());
+                }
+            }
+        }
+        return;
+    }
+    let g = match M::from_json(&input["g"]) {
+        Some(g) if spec.covers(&g) => g,
+        _ => return,
+    };
+    let (h, clause) = match op {
+        "compose" => match compose(&f, &g) {
+            Some(h) => (h, "C14.preserves-composition"),
+            None => return,
+        },
+        "tensor" => (tensor(&f, &g), "C14.preserves-tensor"),
+        _ => return,
+    };
+    ctx.case(N, input, !f.x.is_empty() && !g.x.is_empty());
+    let (of, og, oh) = match (image(&f), image(&g), image(&h)) {
+        (Ok(a), Ok(b), Ok(c)) => (a, b, c),
+        (a, b, c) => {
+            for r in [a, b, c] {
+                if let Err((cl, m)) = r {
+                    ctx.fail(N, &cl, input, json!(m), json!("an image"));
+                }
+            }
+            return;
+        }
+    };
+    let expected = if op == "compose" { compose(&of, &og) } else { Some(tensor(&of, &og)) };
+    match expected {
+        None => ctx.fail(N, "C14.images-composable", input, json!({"target": of.target_type(), "source": og.source_type()}), json!("equal types")),
+        Some(e) => {
+            if !is_iso(&oh, &e) {
+                ctx.fail(N, clause, input, oh.json(), e.json());
+            }
+        }
+    }
+}
+
+/// is `f` a monogamous acyclic circuit of the polynomial theory?
+fn is_circuit(f: &M) -> bool {
+    Spec::poly().covers(f) && monogamous(f) && topo(f).is_some()
+}
+
+/// evaluate the adapted optic of `f` on `inp` with the library evaluator (and the plain interpreter);
+/// reports failures, returns the library evaluator's outputs
+fn eval_adapted(ctx: &mut Ctx, name: &str, input: &Value, f: &M, entry: &str, inp: &[u64], expected: &[u64]) -> Option<Vec<u64>> {
+    let spec = Spec::poly();
+    let ad = match lib_optic(&spec, f, entry, &[], f) {
+        Err((c, m)) => {
+            ctx.fail(name, &c, input, json!(m), json!(expected));
+            return None;
+        }
+        Ok((_, Err((c, m)))) => {
+            ctx.fail(name, &c, input, json!(m), json!(expected));
+            return None;
+        }
+        Ok((_, Ok(ad))) => ad,
+    };
+    let (na, nb) = (f.s.len(), f.t.len());
+    if !ctx.expect(ad.s.len() == na + nb && ad.t.len() == nb + na, name, "C14.deriv-type", input, json!([ad.s.len(), ad.t.len()]), json!([na + nb, nb + na])) {
+        return None;
+    }
+    if !ctx.expect(monogamous(&ad) && topo(&ad).is_some(), name, "C14.deriv-monogamous-acyclic", input, ad.json(), json!("monogamous acyclic")) {
+        return None;
+    }
+    // plain interpreter on the library's diagram: is the diagram itself right?
+    let plain = run_circuit(&ad, inp).map(|r| r.1);
+    ctx.expect(plain.as_deref() == Some(expected), name, "C14.deriv-value", input, json!(plain), json!(expected));
+    // the library evaluator
+    let sad = ad.to_strict();
+    let inputs = VecArray(inp.to_vec());
+    match guard(|| open_hypergraphs::strict::eval::eval::<VecKind, u8, u8, u64>(&sad, inputs, poly_apply_lib)) {
+        Err(p) => {
+            ctx.fail(name, "C14.deriv-evaluable", input, json!(format!("panic: {}", p)), json!(expected));
+            None
+        }
+        Ok(None) => {
+            ctx.fail(name, "C14.deriv-evaluable", input, json!("eval returned None"), json!(expected));
+            None
+        }
+        Ok(Some(out)) => {
+            ctx.expect(out.0 == expected, name, "C14.deriv-eval-value", input, json!(out.0), json!(expected));
+            Some(out.0)
+        }
+    }
+}
+
+/// input: {"f": circuit, "x": [u64], "dy": [u64], "entry"}
+fn chk_deriv(ctx: &mut Ctx, input: &Value) {
+    const N: &str = "deriv";
+    if skipped(N) {
+        return;
+    }
+    let (f, x, dy) = match (M::from_json(&input["f"]), u64s(&input["x"]), u64s(&input["dy"])) {
+        (Some(f), Some(x), Some(dy)) if is_circuit(&f) && x.len() == f.s.len() && dy.len() == f.t.len() => (f, x, dy),
+        _ => return,
+    };
+    let entry = input["entry"].as_str().unwrap_or("strict");
+    ctx.case(N, input, !f.x.is_empty());
+    let (y, dx) = match reverse_mode(&f, &x, &dy) {
+        Some(r) => r,
+        None => return ctx.fail(N, "C14.oracle-selfcheck", input, json!("reverse-mode interpreter failed on a circuit"), json!("a value")),
+    };
+    let fm = forward_mode(&f, &x, &dy);
+    if fm.as_ref() != Some(&dx) {
+        return ctx.fail(N, "C14.oracle-selfcheck", input, json!({"reverse": dx, "forward": fm}), json!("equal"));
+    }
+    let expected = [y, dx].concat();
+    let inp = [x, dy].concat();
+    eval_adapted(ctx, N, input, &f, entry, &inp, &expected);
+}
+
+/// input: {"f": circuit A→B, "g": circuit B→C, "x", "dz", "entry"} — chain rule by optic composition:
+/// D[f;g](x,dz) = let y=f(x); (z,dy)=D[g](y,dz); (_,dx)=D[f](x,dy) in (z,dx)
+fn chk_chain(ctx: &mut Ctx, input: &Value) {
+    const N: &str = "chain";
+    if skipped(N) {
+        return;
+    }
+    let (f, g, x, dz) = match (M::from_json(&input["f"]), M::from_json(&input["g"]), u64s(&input["x"]), u64s(&input["dz"])) {
+        (Some(f), Some(g), Some(x), Some(dz)) if is_circuit(&f) && is_circuit(&g) && f.t.len() == g.s.len() && x.len() == f.s.len() && dz.len() == g.t.len() => (f, g, x, dz),
+        _ => return,
+    };
+    let h = match compose(&f, &g) {
+        Some(h) if is_circuit(&h) => h,
+        _ => return,
+    };
+    let entry = input["entry"].as_str().unwrap_or("strict");
+    ctx.case(N, input, !f.x.is_empty() && !g.x.is_empty());
+    // expected values from the oracle
+    let (y, _) = reverse_mode(&f, &x, &vec![0; f.t.len()]).unwrap();
+    let (z, dy) = reverse_mode(&g, &y, &dz).unwrap();
+    let (_, dx) = reverse_mode(&f, &x, &dy).unwrap();
+    let (z2, dx2) = reverse_mode(&h, &x, &dz).unwrap();
+    if z != z2 || dx != dx2 {
+        return ctx.fail(N, "C14.oracle-selfcheck", input, json!({"composite": [z2, dx2], "chained": [z, dx]}), json!("equal"));
+    }
+    // the library: optic of the composite ...
+    let whole = eval_adapted(ctx, N, input, &h, entry, &[x.clone(), dz.clone()].concat(), &[z.clone(), dx.clone()].concat());
+    // ... against chaining the library's optics of the parts
+    let rg = eval_adapted(ctx, N, input, &g, entry, &[y.clone(), dz].concat(), &[z, dy.clone()].concat());
+    let rf = eval_adapted(ctx, N, input, &f, entry, &[x, dy].concat(), &[y, dx].concat());
+    if let (Some(w), Some(rg), Some(rf)) = (whole, rg, rf) {
+        let chained = [rg[..g.t.len()].to_vec(), rf[f.t.len()..].to_vec()].concat();
+        ctx.expect(w == chained, N, "C14.chain-rule", input, json!(w), json!(chained));
+    }
+}
+
+// ------------------------------------------------------------------------------------------------
+// generators
+// ------------------------------------------------------------------------------------------------
+const NL: usize = 3; // source object labels 0..NL
+const NX: usize = 4; // source operation labels 0..NX
+
+fn shuffle<T>(r: &mut Rng, v: &mut Vec<T>) {
+    for i in (1..v.len()).rev() {
+        let j = r.below(i + 1);
+        v.swap(i, j);
+    }
+}
+
+/// renumber nodes and reorder edges at random (same diagram up to isomorphism, boundary order kept)
+fn permute(r: &mut Rng, m: &M) -> M {
+    let n = m.w.len();
+    let mut p: Vec<usize> = (0..n).collect();
+    shuffle(r, &mut p);
+    let mut w = vec![0u8; n];
+    for i in 0..n {
+        w[p[i]] = m.w[i];
+    }
+    let mp = |l: &Vec<usize>| l.iter().map(|&v| p[v]).collect::<Vec<_>>();
+    let mut eo: Vec<usize> = (0..m.x.len()).collect();
+    shuffle(r, &mut eo);
+    M { w, x: eo.iter().map(|&e| m.x[e]).collect(), src: eo.iter().map(|&e| mp(&m.src[e])).collect(), tgt: eo.iter().map(|&e| mp(&m.tgt[e])).collect(), s: mp(&m.s), t: mp(&m.t) }
+}
+
+fn relabel(r: &mut Rng, mut m: M) -> M {
+    for x in m.x.iter_mut() {
+        *x = r.below(NX) as u8;
+    }
+    m
+}
+
+fn rand_diagram(r: &mut Rng, b: Bounds) -> M {
+    let b = Bounds { labels: NL, ..b };
+    let m = random_model(r, b);
+    relabel(r, m)
+}
+
+fn rand_diagram_from(r: &mut Rng, b: Bounds, ty: &[u8]) -> M {
+    let b = Bounds { labels: NL, ..b };
+    let m = random_model_with_source(r, b, ty);
+    relabel(r, m)
+}
+
+/// random monogamous acyclic diagram with arbitrary typed operations
+fn rand_monogamous(r: &mut Rng, max_in: usize, max_ops: usize, max_arity: usize) -> M {
+    let mut m = M::empty();
+    let mut open: Vec<usize> = vec![];
+    for _ in 0..r.range(0, max_in) {
+        m.w.push(r.below(NL) as u8);
+        open.push(m.w.len() - 1);
+    }
+    m.s = open.clone();
+    for _ in 0..r.range(0, max_ops) {
+        let a = r.range(0, max_arity.min(open.len()));
+        let c = r.range(0, max_arity);
+        let mut src = vec![];
+        for _ in 0..a {
+            let i = r.below(open.len());
+            src.push(open.swap_remove(i));
+        }
+        let mut tgt = vec![];
+        for _ in 0..c {
+            m.w.push(r.below(NL) as u8);
+            tgt.push(m.w.len() - 1);
+            open.push(m.w.len() - 1);
+        }
+        m.x.push(r.below(NX) as u8);
+        m.src.push(src);
+        m.tgt.push(tgt);
+    }
+    shuffle(r, &mut open);
+    m.t = open;
+    permute(r, &m)
+}
+
+fn rand_list(r: &mut Rng, max_len: usize, labels: usize) -> Vec<u8> {
+    let n = r.range(0, max_len);
+    (0..n).map(|_| r.below(labels) as u8).collect()
+}
+
+fn rand_spec(r: &mut Rng) -> Spec {
+    // label pools: shared between F and R (type-correct mis-wirings possible) or disjoint
+    let shared = r.chance(1, 2);
+    let style = r.below(4);
+    let fobj: Vec<Vec<u8>> = (0..NL)
+        .map(|_| match style {
+            0 => vec![r.below(3) as u8],
+            _ => rand_list(r, 2, 3),
+        })
+        .collect();
+    let robj: Vec<Vec<u8>> = (0..NL)
+        .map(|_| {
+            let l = match style {
+                0 => vec![r.below(3) as u8],
+                _ => rand_list(r, 2, 3),
+            };
+            if shared {
+                l
+            } else {
+                l.iter().map(|&x| x + 3).collect()
+            }
+        })
+        .collect();
+    let res_style = r.below(3);
+    let res: Vec<Vec<u8>> = (0..NX)
+        .map(|_| match res_style {
+            0 => vec![],
+            _ => rand_list(r, 2, 3).iter().map(|&x| if shared { x } else { x + 6 }).collect(),
+        })
+        .collect();
+    let mono_only = r.chance(1, 2);
+    let mode = |r: &mut Rng| -> u8 {
+        if mono_only {
+            [0u8, 1, 3, 4][r.below(4)]
+        } else {
+            r.below(N_MODES) as u8
+        }
+    };
+    let fmode = (0..NX).map(|_| mode(r)).collect();
+    let rmode = (0..NX).map(|_| mode(r)).collect();
+    Spec { poly: false, iddag: false, fobj, robj, res, fmode, rmode }
+}
+
+fn corner_specs() -> Vec<Spec> {
+    let g = |fobj: Vec<Vec<u8>>, robj: Vec<Vec<u8>>, res: Vec<Vec<u8>>, fmode: Vec<u8>, rmode: Vec<u8>| Spec { poly: false, iddag: false, fobj, robj, res, fmode, rmode };
+    vec![
+        Spec::iddag(),
+        // the configuration of the existing tests: identity-like forward, dagger-like reverse, empty residual
+        g(vec![vec![0], vec![1], vec![2]], vec![vec![0], vec![1], vec![2]], vec![vec![]; 4], vec![0; 4], vec![0; 4]),
+        // same labels everywhere, residuals empty / single / multiple
+        g(vec![vec![0], vec![0], vec![0]], vec![vec![0], vec![0], vec![0]], vec![vec![], vec![0], vec![0, 0], vec![0, 0]], vec![0, 0, 0, 1], vec![0, 0, 0, 3]),
+        // object images of length 0 / 1 / 2 mixed, different for F and R, residuals with distinct labels
+        g(vec![vec![], vec![1], vec![1, 2]], vec![vec![4, 5], vec![], vec![3]], vec![vec![], vec![6], vec![6, 7], vec![7, 6]], vec![0, 1, 3, 4], vec![4, 3, 1, 0]),
+        // forward images all empty
+        g(vec![vec![], vec![], vec![]], vec![vec![1], vec![2, 1], vec![]], vec![vec![0], vec![], vec![0, 1], vec![]], vec![0, 0, 4, 2], vec![0, 4, 0, 5]),
+        // everything empty: the optic of anything has no wires
+        g(vec![vec![]; 3], vec![vec![]; 3], vec![vec![]; 4], vec![0, 2, 3, 4], vec![0, 2, 3, 4]),
+        // length-2 images with repeated labels, operation-free / non-monogamous generator images
+        g(vec![vec![0, 0], vec![0, 1], vec![1, 1]], vec![vec![0, 0], vec![1, 0], vec![0]], vec![vec![0], vec![0, 1], vec![], vec![1, 1]], vec![2, 5, 4, 0], vec![5, 2, 0, 4]),
+    ]
+}
+
+// ---- polynomial circuits ---------------------------------------------------------------------------
+fn rand_val(r: &mut Rng) -> u64 {
+    const C: [u64; 8] = [0, 1, 2, 3, u64::MAX, 1 << 63, 1 << 32, 0xFFFF_FFFF];
+    if r.chance(1, 2) {
+        C[r.below(C.len())]
+    } else {
+        r.next()
+    }
+}
+
+fn rand_vals(r: &mut Rng, n: usize) -> Vec<u64> {
+    (0..n).map(|_| rand_val(r)).collect()
+}
+
+/// add one operation consuming the given open wires (by position in `open`)
+fn push_op(m: &mut M, open: &mut Vec<usize>, op: u8, picks: &[usize]) {
+    let (_, c) = poly_type(op).unwrap();
+    let src: Vec<usize> = picks.iter().map(|&i| open[i]).collect();
+    let mut sorted = picks.to_vec();
+    sorted.sort();
+    for &i in sorted.iter().rev() {
+        open.remove(i);
+    }
+    let mut tgt = vec![];
+    for _ in 0..c {
+        m.w.push(0);
+        tgt.push(m.w.len() - 1);
+        open.push(m.w.len() - 1);
+    }
+    m.x.push(op);
+    m.src.push(src);
+    m.tgt.push(tgt);
+}
+
+fn rand_poly_op(r: &mut Rng, open: usize) -> u8 {
+    loop {
+        let op = match r.below(12) {
+            0 | 1 => ADD,
+            2 | 3 | 4 => MUL,
+            5 => NEG,
+            6 | 7 | 8 => COPY,
+            9 => DISCARD,
+            _ => CONST0 + r.below(CONSTS.len()) as u8,
+        };
+        if poly_type(op).unwrap().0 <= open {
+            return op;
+        }
+    }
+}
+
+/// random monogamous acyclic circuit: any wiring (random choice of wires), any edge order, any numbering
+fn rand_circuit(r: &mut Rng, max_in: usize, max_ops: usize, fixed_in: Option<usize>) -> M {
+    let n_in = fixed_in.unwrap_or_else(|| r.range(0, max_in));
+    let mut m = M::empty();
+    m.w = vec![0; n_in];
+    let mut open: Vec<usize> = (0..n_in).collect();
+    m.s = open.clone();
+    for _ in 0..r.range(0, max_ops) {
+        let op = rand_poly_op(r, open.len());
+        let a = poly_type(op).unwrap().0;
+        let mut idx: Vec<usize> = (0..open.len()).collect();
+        shuffle(r, &mut idx);
+        idx.truncate(a);
+        push_op(&mut m, &mut open, op, &idx);
+    }
+    // sometimes discard left-over wires
+    if r.chance(1, 3) {
+        let mut i = 0;
+        while i < open.len() {
+            if r.chance(1, 2) {
+                push_op(&mut m, &mut open, DISCARD, &[i]);
+            } else {
+                i += 1;
+            }
+        }
+    }
+    shuffle(r, &mut open);
+    m.t = open;
+    permute(r, &m)
+}
+
+/// a circuit whose operations are all the same binary operation (every operation then carries the same
+/// residual, so residuals of different operations are interchangeable as far as types go)
+fn rand_uniform_circuit(r: &mut Rng, op: u8, max_in: usize) -> M {
+    let n_in = r.range(2, max_in);
+    let mut m = M::empty();
+    m.w = vec![0; n_in];
+    let mut open: Vec<usize> = (0..n_in).collect();
+    m.s = open.clone();
+    while open.len() >= 2 && !r.chance(1, 4) {
+        let mut idx: Vec<usize> = (0..open.len()).collect();
+        shuffle(r, &mut idx);
+        idx.truncate(2);
+        push_op(&mut m, &mut open, op, &idx);
+    }
+    shuffle(r, &mut open);
+    m.t = open;
+    permute(r, &m)
+}
+
+/// a circuit with exactly `n_in` inputs: extra inputs are discarded, missing ones come from constants
+fn rand_circuit_from(r: &mut Rng, n_in: usize, max_ops: usize) -> M {
+    rand_circuit(r, n_in, max_ops, Some(n_in))
+}
+
+/// all circuits built by at most `depth` operations from `ops` on `n_in` inputs, every ordered choice of
+/// distinct open wires, outputs in every order (identity and reversal only when more than 3)
+fn enum_circuits(n_in: usize, depth: usize, ops: &[u8], all_perms: bool) -> Vec<M> {
+    fn perms(v: &[usize]) -> Vec<Vec<usize>> {
+        if v.len() <= 1 {
+            return vec![v.to_vec()];
+        }
+        let mut out = vec![];
+        for i in 0..v.len() {
+            let mut rest = v.to_vec();
+            let x = rest.remove(i);
+            for mut p in perms(&rest) {
+                p.insert(0, x);
+                out.push(p);
+            }
+        }
+        out
+    }
+    fn tuples(n: usize, k: usize) -> Vec<Vec<usize>> {
+        if k == 0 {
+            return vec![vec![]];
+        }
+        let mut out = vec![];
+        for t in tuples(n, k - 1) {
+            for i in 0..n {
+                if !t.contains(&i) {
+                    let mut u = t.clone();
+                    u.push(i);
+                    out.push(u);
+                }
+            }
+        }
+        out
+    }
+    fn rec(m: &M, open: &Vec<usize>, depth: usize, ops: &[u8], all_perms: bool, out: &mut Vec<M>) {
+        let outs = if all_perms && open.len() <= 3 { perms(open) } else { vec![open.clone(), open.iter().rev().cloned().collect()] };
+        let mut seen: Vec<Vec<usize>> = vec![];
+        for t in outs {
+            if !seen.contains(&t) {
+                seen.push(t.clone());
+                let mut c = m.clone();
+                c.t = t;
+                out.push(c);
+            }
+        }
+        if depth == 0 {
+            return;
+        }
+        for &op in ops {
+            let a = poly_type(op).unwrap().0;
+            if a > open.len() {
+                continue;
+            }
+            for picks in tuples(open.len(), a) {
+                let mut c = m.clone();
+                let mut o = open.clone();
+                push_op(&mut c, &mut o, op, &picks);
+                rec(&c, &o, depth - 1, ops, all_perms, out);
+            }
+        }
+    }
+    let mut m = M::empty();
+    m.w = vec![0; n_in];
+    m.s = (0..n_in).collect();
+    let mut out = vec![];
+    rec(&m, &m.s.clone(), depth, ops, all_perms, &mut out);
+    out
+}
+
+/// reverse the listing order of the operations (so they are listed against the data flow)
+fn reverse_edges(m: &M) -> M {
+    let mut c = m.clone();
+    c.x.reverse();
+    c.src.reverse();
+    c.tgt.reverse();
+    c
+}
+
+fn corner_circuits() -> Vec<M> {
+    let mut out = vec![];
+    out.push(M::empty());
+    out.push(identity(&[0]));
+    out.push(identity(&[0, 0, 0]));
+    out.push(twist(&[0], &[0, 0]));
+    for op in [ADD, MUL, NEG, COPY, DISCARD, CONST0, CONST0 + 1, CONST0 + 4, CONST0 + 7] {
+        let (a, b) = poly_type(op).unwrap();
+        out.push(singleton(op, &vec![0; a], &vec![0; b]));
+    }
+    // x ↦ x² (copy ; mul), and with the copy outputs crossed
+    let sq = M { w: vec![0; 4], x: vec![COPY, MUL], src: vec![vec![0], vec![1, 2]], tgt: vec![vec![1, 2], vec![3]], s: vec![0], t: vec![3] };
+    out.push(sq.clone());
+    out.push(reverse_edges(&sq));
+    out.push(M { src: vec![vec![0], vec![2, 1]], ..sq.clone() });
+    // x ↦ x^(2^k) by repeated squaring: a long chain (deep chain rule); edges listed backwards too
+    for k in [3usize, 16, 40] {
+        let mut m = M::empty();
+        m.w = vec![0];
+        m.s = vec![0];
+        let mut open = vec![0usize];
+        for _ in 0..k {
+            push_op(&mut m, &mut open, COPY, &[0]);
+            push_op(&mut m, &mut open, MUL, &[0, 1]);
+        }
+        m.t = open;
+        out.push(reverse_edges(&m));
+        out.push(m);
+    }
+    // (x, y) ↦ (x·y + x, −y·3) with shared inputs through copies; subtraction-like use of neg
+    {
+        let mut m = M::empty();
+        m.w = vec![0, 0];
+        m.s = vec![0, 1];
+        let mut open = vec![0usize, 1];
+        push_op(&mut m, &mut open, COPY, &[0]); // open: y x1 x2
+        push_op(&mut m, &mut open, COPY, &[0]); // open: x1 x2 y1 y2
+        push_op(&mut m, &mut open, MUL, &[0, 2]); // open: x2 y2 xy
+        push_op(&mut m, &mut open, ADD, &[2, 0]); // open: y2 (xy+x)
+        push_op(&mut m, &mut open, CONST0 + 3, &[]); // open: y2 s 3
+        push_op(&mut m, &mut open, MUL, &[0, 2]); // open: s 3y
+        push_op(&mut m, &mut open, NEG, &[1]); // open: s -3y
+        m.t = open;
+        out.push(m.clone());
+        out.push(reverse_edges(&m));
+    }
+    // wide: 20 parallel multiplications, inputs interleaved the "wrong" way round
+    {
+        let k = 20;
+        let mut m = M::empty();
+        m.w = vec![0; 3 * k];
+        m.s = (0..2 * k).collect();
+        for i in 0..k {
+            m.x.push(if i % 2 == 0 { MUL } else { ADD });
+            m.src.push(vec![i, 2 * k - 1 - i]);
+            m.tgt.push(vec![2 * k + i]);
+        }
+        m.t = (2 * k..3 * k).rev().collect();
+        out.push(m);
+    }
+    // multiplications only: two crossed in parallel; a tree; eight in parallel
+    out.push(M { w: vec![0; 6], x: vec![MUL, MUL], src: vec![vec![0, 2], vec![3, 1]], tgt: vec![vec![5], vec![4]], s: vec![0, 1, 2, 3], t: vec![4, 5] });
+    out.push(M { w: vec![0; 7], x: vec![MUL, MUL, MUL], src: vec![vec![5, 4], vec![0, 3], vec![2, 1]], tgt: vec![vec![6], vec![4], vec![5]], s: vec![0, 1, 2, 3], t: vec![6] });
+    out.push(M { w: vec![0; 24], x: vec![MUL; 8], src: (0..8).map(|i| vec![i, 15 - i]).collect(), tgt: (0..8).map(|i| vec![16 + (i * 3) % 8]).collect(), s: (0..16).collect(), t: (16..24).collect() });
+    // copy tree then sum tree: x ↦ 8x
+    {
+        let mut m = M::empty();
+        m.w = vec![0];
+        m.s = vec![0];
+        let mut open = vec![0usize];
+        for _ in 0..7 {
+            push_op(&mut m, &mut open, COPY, &[0]);
+        }
+        while open.len() > 1 {
+            push_op(&mut m, &mut open, ADD, &[0, 1]);
+        }
+        m.t = open;
+        out.push(m);
+    }
+    // an input discarded, an output that is a constant, a wire passing straight through
+    out.push(M { w: vec![0; 3], x: vec![DISCARD, CONST0 + 2], src: vec![vec![0], vec![]], tgt: vec![vec![], vec![2]], s: vec![0, 1], t: vec![2, 1] });
+    out
+}
+
+// ------------------------------------------------------------------------------------------------
+pub fn run(ctx: &mut Ctx) {
+    if let Some((name, input)) = ctx.replay.clone() {
+        for (n, c) in CHECKS {
+            if *n == name {
+                c(ctx, &input);
+            }
+        }
+        return;
+    }
+    let thorough = ctx.thorough();
+    let entries = ["strict", "lax"];
+    let specs = corner_specs();
+    let poly = Spec::poly();
+
+    // ---- (a) corner diagrams x corner specs x both entries -----------------------------------------
+    let mut corners = corner_models();
+    for m in corners.iter_mut() {
+        for (i, x) in m.x.iter_mut().enumerate() {
+            *x = ((*x as usize + i) % NX) as u8;
+        }
+    }
+    // operation-free diagrams with non-identity wiring, isolated nodes, multiplicities
+    corners.push(M { w: vec![0, 1, 2, 1], x: vec![], src: vec![], tgt: vec![], s: vec![2, 0, 0, 1], t: vec![1, 1, 2] });
+    corners.push(twist(&[0, 2], &[1]));
+    // parallel operations with multiplicity larger than the number of nodes
+    corners.push(M { w: vec![1, 2], x: vec![0, 1, 0, 1, 2, 3], src: vec![vec![0], vec![0], vec![0, 0], vec![1], vec![], vec![1, 0]], tgt: vec![vec![1], vec![1], vec![1], vec![0, 0], vec![0], vec![]], s: vec![0], t: vec![1] });
+    // all four operation labels once, mixed arities, monogamous
+    corners.push(M { w: vec![0, 1, 2, 0, 1, 2, 0], x: vec![3, 2, 1, 0], src: vec![vec![5, 4], vec![2, 3], vec![1], vec![0]], tgt: vec![vec![6], vec![4, 5], vec![3], vec![1, 2]], s: vec![0], t: vec![6] });
+    for spec in &specs {
+        for f in &corners {
+            for e in entries {
+                chk_optic(ctx, &json!({"spec": spec.json(), "f": f.json(), "entry": e}));
+            }
+        }
+        for a in [vec![], vec![0], vec![1], vec![2], vec![0, 1, 2], vec![2, 2, 0, 1, 0]] {
+            chk_map_object(ctx, &json!({"spec": spec.json(), "a": a}));
+            for e in entries {
+                chk_functor(ctx, &json!({"spec": spec.json(), "op": "identity", "f": identity(&a).json(), "entry": e}));
+            }
+        }
+        chk_map_operations(ctx, &json!({"spec": spec.json(), "ops": []}));
+        chk_map_operations(ctx, &json!({"spec": spec.json(), "ops": [[0, [], []]]}));
+        chk_map_operations(ctx, &json!({"spec": spec.json(), "ops": [[1, [0, 1], [2]], [2, [], [1, 1]], [3, [2, 2, 0], []], [1, [1], [0]], [0, [0], [0]]]}));
+    }
+    chk_map_object(ctx, &json!({"spec": poly.json(), "a": [0, 0, 0]}));
+    // pending identifications on the lax entry
+    for spec in &specs {
+        let f = M { w: vec![0, 0, 1, 1, 0], x: vec![1, 2], src: vec![vec![0, 2], vec![3]], tgt: vec![vec![3], vec![4, 1]], s: vec![0, 1, 2], t: vec![4, 3] };
+        for pend in [vec![[0, 1]], vec![[2, 3]], vec![[0, 1], [1, 4], [3, 2]], vec![[4, 4]]] {
+            chk_optic(ctx, &json!({"spec": spec.json(), "f": f.json(), "entry": "lax", "pending": pend}));
+        }
+    }
+
+    // ---- (b) exhaustive tiny diagrams ---------------------------------------------------------------
+    // nodes ≤ 2 (labels 1.. by position), at most one operation with source/target lists of length ≤ 2,
+    // interfaces of length ≤ 2 (≤ 1 quick); corner specs 2,3 (all corner specs thorough)
+    {
+        let lists = |n: usize, maxlen: usize| -> Vec<Vec<usize>> {
+            let mut out = vec![vec![]];
+            if maxlen >= 1 {
+                for a in 0..n {
+                    out.push(vec![a]);
+                }
+            }
+            if maxlen >= 2 {
+                for a in 0..n {
+                    for b in 0..n {
+                        out.push(vec![a, b]);
+                    }
+                }
+            }
+            out
+        };
+        let (el, il) = if thorough { (2, 2) } else { (2, 1) };
+        let spec_ids: Vec<usize> = if thorough { (0..specs.len()).collect() } else { vec![2, 3] };
+        let mut count = 0usize;
+        for n in 0..=2usize {
+            let w: Vec<u8> = (0..n).map(|i| (i + 1) as u8).collect();
+            for with_edge in [false, true] {
+                let srcs = if with_edge { lists(n, el) } else { vec![vec![]] };
+                let tgts = if with_edge { lists(n, el) } else { vec![vec![]] };
+                for es in &srcs {
+                    for et in &tgts {
+                        for s in lists(n, il) {
+                            for t in lists(n, il) {
+                                let f = if with_edge { M { w: w.clone(), x: vec![(es.len() + 2 * et.len()) as u8 % NX as u8], src: vec![es.clone()], tgt: vec![et.clone()], s: s.clone(), t: t.clone() } } else { M { w: w.clone(), x: vec![], src: vec![], tgt: vec![], s: s.clone(), t: t.clone() } };
+                                for &si in &spec_ids {
+                                    count += 1;
+                                    chk_optic(ctx, &json!({"spec": specs[si].json(), "f": f.json(), "entry": entries[count % 2]}));
+                                }
+                            }
+                        }
+                    }
+                }
+            }
+        }
+    }
+
+    // ---- (c) random diagrams and specs -----------------------------------------------------------------
+    let n = ctx.budget(5000, 160000);
+    for i in 0..n {
+        let spec = if i % 5 == 0 { specs[ctx.rng.below(specs.len())].clone() } else { rand_spec(&mut ctx.rng) };
+        let b = if i % 4 == 0 { MEDIUM } else { SMALL };
+        let f = match i % 3 {
+            0 => rand_monogamous(&mut ctx.rng, 3, 4, 3),
+            _ => rand_diagram(&mut ctx.rng, b),
+        };
+        let entry = entries[ctx.rng.below(2)];
+        let mut pending: Vec<[usize; 2]> = vec![];
+        if entry == "lax" && !f.w.is_empty() && ctx.rng.chance(1, 4) {
+            for _ in 0..ctx.rng.range(1, 3) {
+                let a = ctx.rng.below(f.w.len());
+                let cands: Vec<usize> = (0..f.w.len()).filter(|&v| f.w[v] == f.w[a]).collect();
+                pending.push([a, cands[ctx.rng.below(cands.len())]]);
+            }
+        }
+        chk_optic(ctx, &json!({"spec": spec.json(), "f": f.json(), "entry": entry, "pending": pending}));
+    }
+    let n = ctx.budget(1200, 40000);
+    for i in 0..n {
+        let spec = if i % 5 == 0 { specs[ctx.rng.below(specs.len())].clone() } else { rand_spec(&mut ctx.rng) };
+        let b = if i % 4 == 0 { MEDIUM } else { SMALL };
+        let f = if i % 3 == 0 { rand_monogamous(&mut ctx.rng, 3, 3, 2) } else { rand_diagram(&mut ctx.rng, b) };
+        let entry = entries[ctx.rng.below(2)];
+        if i % 2 == 0 {
+            let g = rand_diagram_from(&mut ctx.rng, b, &f.target_type());
+            chk_functor(ctx, &json!({"spec": spec.json(), "op": "compose", "f": f.json(), "g": g.json(), "entry": entry}));
+        } else {
+            let g = rand_diagram(&mut ctx.rng, b);
+            chk_functor(ctx, &json!({"spec": spec.json(), "op": "tensor", "f": f.json(), "g": g.json(), "entry": entry}));
+        }
+    }
+    let n = ctx.budget(600, 20000);
+    for _ in 0..n {
+        let spec = rand_spec(&mut ctx.rng);
+        let k = ctx.rng.range(0, 4);
+        let ops: Vec<Value> = (0..k).map(|_| json!([ctx.rng.below(NX), rand_list(&mut ctx.rng, 3, NL), rand_list(&mut ctx.rng, 3, NL)])).collect();
+        chk_map_operations(ctx, &json!({"spec": spec.json(), "ops": ops}));
+        let a = rand_list(&mut ctx.rng, 5, NL);
+        chk_map_object(ctx, &json!({"spec": spec.json(), "a": a}));
+    }
+
+    // ---- (d) derivative clause --------------------------------------------------------------------------
+    let circ_corners = corner_circuits();
+    for f in &circ_corners {
+        for e in entries {
+            // the lens optic's image is also compared with the definition's gluing
+            if f.x.len() <= 12 {
+                chk_optic(ctx, &json!({"spec": poly.json(), "f": f.json(), "entry": e}));
+            }
+            for k in 0..3 {
+                let (x, dy) = match k {
+                    0 => (vec![3u64; f.s.len()], vec![1u64; f.t.len()]),
+                    1 => ((0..f.s.len()).map(|i| (i as u64 + 2).wrapping_mul(0x1_0000_0001)).collect(), (0..f.t.len()).map(|i| u64::MAX - i as u64).collect()),
+                    _ => (rand_vals(&mut ctx.rng, f.s.len()), rand_vals(&mut ctx.rng, f.t.len())),
+                };
+                chk_deriv(ctx, &json!({"f": f.json(), "x": x, "dy": dy, "entry": e}));
+            }
+        }
+    }
+    // exhaustive small circuits
+    {
+        let ops = [ADD, MUL, NEG, COPY, DISCARD, CONST0 + 2];
+        let depth = if thorough { 3 } else { 2 };
+        let mut count = 0usize;
+        for n_in in 0..=2usize {
+            for f in enum_circuits(n_in, depth, &ops, thorough || n_in < 2) {
+                if thorough && f.x.len() == 3 && count % 3 != 0 {
+                    count += 1;
+                    continue;
+                }
+                count += 1;
+                let x: Vec<u64> = (0..f.s.len()).map(|i| [5u64, u64::MAX - 6][i % 2]).collect();
+                let dy: Vec<u64> = (0..f.t.len()).map(|i| [1u64, 3, 1 << 63, 7][i % 4]).collect();
+                chk_deriv(ctx, &json!({"f": f.json(), "x": x, "dy": dy, "entry": entries[count % 2]}));
+            }
+        }
+    }
+    // random circuits
+    let n = ctx.budget(2500, 80000);
+    for i in 0..n {
+        let f = match i % 10 {
+            0 => rand_circuit(&mut ctx.rng, 6, 30, None),
+            1 => rand_uniform_circuit(&mut ctx.rng, if i % 20 == 1 { MUL } else { ADD }, 8),
+            _ => rand_circuit(&mut ctx.rng, 3, 8, None),
+        };
+        let x = rand_vals(&mut ctx.rng, f.s.len());
+        let dy = rand_vals(&mut ctx.rng, f.t.len());
+        let entry = entries[ctx.rng.below(2)];
+        chk_deriv(ctx, &json!({"f": f.json(), "x": x, "dy": dy, "entry": entry}));
+        if i % 4 == 0 && f.x.len() <= 8 {
+            chk_optic(ctx, &json!({"spec": poly.json(), "f": f.json(), "entry": entry}));
+        }
+    }
+    // chain rule: composable circuits
+    let n = ctx.budget(500, 16000);
+    for _ in 0..n {
+        let f = rand_circuit(&mut ctx.rng, 3, 6, None);
+        let g = rand_circuit_from(&mut ctx.rng, f.t.len(), 6);
+        let x = rand_vals(&mut ctx.rng, f.s.len());
+        let dz = rand_vals(&mut ctx.rng, g.t.len());
+        let entry = entries[ctx.rng.below(2)];
+        chk_chain(ctx, &json!({"f": f.json(), "g": g.json(), "x": x, "dz": dz, "entry": entry}));
+        if ctx.rng.chance(1, 4) {
+            chk_functor(ctx, &json!({"spec": poly.json(), "op": "compose", "f": f.json(), "g": g.json(), "entry": entry}));
+        }
+    }
+    for (f, g) in [(&circ_corners[13], &circ_corners[13]), (&circ_corners[7], &circ_corners[4]), (&circ_corners[7], &circ_corners[5]), (&circ_corners[9], &circ_corners[8])] {
+        for e in entries {
+            let x = rand_vals(&mut ctx.rng, f.s.len());
+            let dz = rand_vals(&mut ctx.rng, g.t.len());
+            chk_chain(ctx, &json!({"f": f.json(), "g": g.json(), "x": x, "dz": dz, "entry": e}));
+        }
+    }
+
+    ctx.notes.push(
+        "rule: optic/functor/map_operations/map_object — (spec, diagram[s], entry) with spec = object images F,R (length 0..2 per label, 3 source \
+         labels), residual per operation label (length 0..2, 4 labels), generator-image shape per label (6 shapes: single op, 2-chain, operation-free \
+         dangling, reversed numbering + zero-arity op, identity wires + op, non-monogamous double consumer); 7 corner specs (incl. the library tests' Identity/dagger optic, run through the library's Identity functor) x (14 corner diagrams + \
+         pending-identification lax terms); exhaustive diagrams with ≤2 nodes, ≤1 operation (arity lists ≤2), interfaces ≤1 quick / ≤2 \
+         thorough; random: SMALL(3 nodes,2 edges,arity 2,iface 3) / MEDIUM(5,3,3,4) arbitrary diagrams and monogamous acyclic ones (≤3 inputs, ≤4 ops, \
+         arity ≤3), random specs; oracle = gluing by definition compared up to isomorphism, for the interleaved and the adapted boundary. \
+         deriv/chain — monogamous acyclic circuits over {add,mul,neg,copy,discard,const(8 values)} on Z/2^64: 33 corner circuits (chains of 80 ops, \
+         20-wide tensor, crossed wires, reversed edge order), exhaustive circuits with ≤2 inputs and ≤2 (quick) / ≤3 (thorough, every 3rd of depth 3) \
+         operations with every ordered wire choice and output order, random circuits ≤3 inputs/≤8 ops, ≤6 inputs/≤30 ops and multiplication-only / addition-only circuits on ≤8 inputs, with shuffled numbering \
+         and edge order, inputs from corner values {0,1,2,3,-1,2^63,2^32,..} and uniform u64; expected (f(x), J^T dy) from a reverse-mode interpreter \
+         cross-checked against forward mode; evaluated with strict::eval::eval and with a plain interpreter. \
+         non-trivial = diagram has an operation (or a non-identity boundary) / circuit has an operation / both composites have operations."
+            .into(),
+    );
+}
